@@ -467,6 +467,10 @@ class InterpBase:
                     kwargs = {}
                     for k, v in zip(e.keywords, kwv):
                         if k.arg is None:
+                            if self.specs.get("star_kwargs_abstract") and not self.is_concrete_iterable(s3, v):
+                                # `f(**m)` with an abstract mapping m: handed to the callee's spec under the key "**" (opt-in per contract)
+                                kwargs["**"] = v
+                                continue
                             kwargs.update(self.dict_concrete(s3, v, e))
                         else:
                             kwargs[k.arg] = v
@@ -493,7 +497,7 @@ class InterpBase:
 
             def f(s2, itv):
                 if not self.is_concrete_iterable(s2, itv):
-                    if len(e.generators) != 1 or g.ifs:
+                    if len(e.generators) != 1 or (g.ifs and not getattr(self.specs.get("comp_abstract"), "handles_filters", False)):
                         raise Unsupported("comprehension over abstract iterable with filter/nesting", e)
                     return self._comp_abstract(e, g, s2, cfr, itv, elt_fn)
                 items = self.iter_concrete(s2, itv, e)
